@@ -13,6 +13,7 @@ package c02
 // SYN-ACK cannot leave through a socketpair). Oracle unchanged: child alive + probe event.
 
 import (
+	"encoding/hex"
 	"fmt"
 	"strings"
 	"testing"
@@ -30,6 +31,8 @@ type convStep struct {
 	AckOff int64 `json:"ack_off"` // relative to the listener's ISS+2 (first byte after its SYN)
 	Len    int   `json:"len"`
 	NoRest bool  `json:"no_rest,omitempty"` // do not wait for the loop / handlers before this frame
+	// Data: the segment's payload (hex, Len bytes); empty: Len pattern bytes
+	Data string `json:"data_hex,omitempty"`
 }
 
 type conversation struct {
@@ -80,6 +83,9 @@ func play(l cl.Local, k *cl.Canary, c conversation) bool {
 		f := cl.TCPFields{Seq: next + uint32(st.SeqOff), Ack: iss + 2 + uint32(st.AckOff), Flags: st.Flags}
 		if st.Len > 0 {
 			f.Payload = pad(st.Len, byte(st.Len))
+			if d, err := hex.DecodeString(st.Data); err == nil && len(d) == st.Len {
+				f.Payload = d
+			}
 		}
 		if !send(f) {
 			return false
